@@ -97,3 +97,31 @@ package checks
 //@   ensures result != nil
 //@ func TemplatedRegexp.Expand [C18]
 //@   ensures result1 == nil ==> result0 != nil
+
+// ---------------------------------------------------------------------------------------------
+// C16: promql/series verdicts agree with what the server holds.
+// (a) once the instant query for a selector returned series (count > 0) nothing further is reported for it: every
+//     later report site of the selector loop is reached only with count <= 0 and no query error;
+// (b) the "found recording rule that generates it" downgrade is taken only for an entry that is a valid
+//     recording rule; the plain "didn't have any series" report only when no such entry was found.
+//@ func SeriesCheck.Check [C16]
+//@   assumed callee-requires promapi.FailoverGroup.RangeQuery, promapi.Overlaps
+//@   ghost lastCount int
+//@   ghost countOK bool
+//@   after call instantSeriesCount set lastCount = result0
+//@   after call instantSeriesCount set countOK = (result1 == nil)
+//@   at call append#3 assert !countOK
+//@   at call append#5 assert countOK && lastCount <= 0 && rrEntry != nil && rrEntry.Rule.RecordingRule != nil && rrEntry.Rule.Error.Err == nil
+//@   at call append#6 assert countOK && lastCount <= 0 && rrEntry == nil
+//@   at call append#4 assert countOK && lastCount <= 0
+//@   at call append#7 assert countOK && lastCount <= 0
+//@   at call append#8 assert countOK && lastCount <= 0
+//@   at call append#9 assert countOK && lastCount <= 0
+//@   at call append#10 assert countOK && lastCount <= 0
+//@   at call append#11 assert countOK && lastCount <= 0
+//@   at call append#12 assert countOK && lastCount <= 0
+//@   at call append#13 assert countOK && lastCount <= 0
+//@   at call append#14 assert countOK && lastCount <= 0
+//@   at call append#15 assert countOK && lastCount <= 0
+//@   at call append#16 assert countOK && lastCount <= 0
+//@   at call append#17 assert countOK && lastCount <= 0
